@@ -193,6 +193,9 @@ class Table:
     # ---- slices
     def slice_of(self, e):
         """(read k, mask, shift) if e == ((read_k & mask) >> shift), else None.  mask None = the whole read."""
+        if e[0] == 'call' and len(e) == 3 and (e[1].split('#')[0].endswith('::from') or e[1].split('#')[0].endswith('::into')) and \
+                ('convert::From<u' in e[1] or 'convert::Into<' in e[1] or 'as std::convert::From' in e[1]):
+            return self.slice_of(e[2])          # u16::from(x) / x.into() between unsigned integers: lossless widening
         if e[0] == 'cast':
             s = self.slice_of(e[2])
             if s is None: return None
